@@ -209,7 +209,7 @@ def _is_field_lookup(n) -> bool:
     """transaction['field']  or  transaction.get('field'[, d])"""
     if isinstance(n, ast.Subscript) and isinstance(n.value, ast.Name) and isinstance(n.slice, ast.Constant) and n.slice.value == 'field':
         return True
-    return isinstance(n, ast.Call) and isinstance(n.func, ast.Attribute) and n.func.attr == 'get' and isinstance(n.func.value, ast.Name) \
+    return isinstance(n, ast.Call) and isinstance(n.func, ast.Attribute) and n.func.attr in ('get', 'setdefault') and isinstance(n.func.value, ast.Name) \
         and bool(n.args) and isinstance(n.args[0], ast.Constant) and n.args[0].value == 'field'
 
 
@@ -244,10 +244,16 @@ def r5_transform_store(ctx: Ctx, E: Escapes) -> None:
                                 or isinstance(v, ast.Name) and v.id in none_params or isinstance(v, ast.Constant) and v.value is None:
                             premise.append(f'{g.name}:{n.lineno} `{src(k)}: {src(v)[:40]}`')
     derefs = []
+    # a local bound to the mapping (`fields = transaction.setdefault('field', {})`) stands for it
+    alias = {a_.targets[0].id for a_ in all_nodes(f.node) if isinstance(a_, ast.Assign) and len(a_.targets) == 1 and isinstance(a_.targets[0], ast.Name)
+             and _is_field_lookup(a_.value)}
+
+    def is_map(v) -> bool:
+        return _is_field_lookup(v) or isinstance(v, ast.Name) and v.id in alias
     for n in all_nodes(f.node):
-        if isinstance(n, ast.Subscript) and _is_field_lookup(n.value):
+        if isinstance(n, ast.Subscript) and is_map(n.value):
             derefs.append((n, 'TypeError', f"{src(n)[:50]}"))
-        elif isinstance(n, ast.Attribute) and _is_field_lookup(n.value):
+        elif isinstance(n, ast.Attribute) and is_map(n.value):
             derefs.append((n, 'AttributeError', f"{src(n)[:50]}"))
     if not premise:
         ctx.ok('C08.R5', f, "no reader builds a transaction with 'field': None any more; the store cannot fail on the mapping", construct='premise')
@@ -256,7 +262,7 @@ def r5_transform_store(ctx: Ctx, E: Escapes) -> None:
     if not derefs:
         raise AnalysisError(f, "C08.R5: no dereference of the transaction's 'field' mapping found in apply_transforms (extend the idiom table)")
     tests = [n for n in all_nodes(f.node) if isinstance(n, (ast.If, ast.IfExp, ast.While)) and any(
-        _is_field_lookup(m) for m in ast.walk(n.test))]
+        is_map(m) for m in ast.walk(n.test))]
     for n, cls, text in derefs:
         loop = enclosing_loop(n, f.node)
         covered = None
